@@ -210,7 +210,8 @@ class ProjectiveDrawing(Drawing):
             return
 
          # first, find the first index where we switch signs
-        sign_switch = utils.first_sign_switch(polygon.projective_coords()[..., 0])
+        sign_switch = utils.first_sign_switch(
+            polygon.projective_coords()[..., self.chart_index])
 
         # roll the coordinates by the signs
         coord_mat = polygon.projective_coords()
@@ -220,11 +221,13 @@ class ProjectiveDrawing(Drawing):
         rolled_coords = coord_mat[rows, cols]
 
         # find the index where signs switch back
-        second_switch = utils.first_sign_switch(rolled_coords[..., 0])
+        second_switch = utils.first_sign_switch(
+            rolled_coords[..., self.chart_index])
 
         # re-index polygon affine coordinates by first sign switch
         rolled_polys = projective.Polygon(rolled_coords)
-        poly_affine = rolled_polys.affine_coords()
+        poly_affine = rolled_polys.affine_coords(
+            chart_index=self.chart_index)
 
         # find affine coordinates of sign-switch points
         s1_v1 = poly_affine[..., -1, :]
@@ -298,7 +301,7 @@ class ProjectiveDrawing(Drawing):
             self.ax.add_collection(polys)
             return
 
-        in_chart = polylist.in_standard_chart()
+        in_chart = polylist.in_standard_chart(chart_index=self.chart_index)
         affine_polys = self.__class__._PolyCollection(polylist[in_chart].affine_coords(
             chart_index=self.chart_index), **default_kwargs)
         self.ax.add_collection(affine_polys)
